@@ -57,7 +57,7 @@ def rules(model: Model, tier: str) -> List[RuleResult]:
     _counts(model, N)
     _weights(model, W)
     _same_samples(model, fc, B)
-    _hy = ac.hygiene_rules(model, ac.get_fncls(model, '_MCQuad'), PROP, min_copies=1, min_opt=2)
+    _hy = ac.hygiene_rules(model, ac.get_fncls(model, '_MCQuad'), PROP, min_copies=1, min_opt=2, min_conv=2, min_idx=8)
     return [R1, R2, R3, R4, R5, R6, R6f, U, S, N, W, B, *_hy]
 
 
